@@ -192,8 +192,12 @@ LEVEL_TEXT = ('Coq theorems over an executable model of TimeoutManager (every hi
               'a small kernel readiness model, every scripted scenario): callbacks only while registered, a remote '
               'close reported at most once, only after all queued data, and at least once for a hung-up connected '
               'descriptor that stays registered; no deleted descriptor object is ever used (under the delete_on_close '
-              'contract).  Back-end agreement is proved ONLY on two bounded single-descriptor domains '
-              '(*_bounded_partial); the general simulation is not proved and rests on the differential runs.  Both '
+              'contract).  Back-end agreement (c16_backends_agree: per descriptor the same callbacks, bytes and '
+              'timing on epoll and select) is proved in general by refining both poller models to one '
+              'single-descriptor abstract machine, under four guards stated as boolean functions: callbacks act only '
+              'on their own descriptor, no delete_on_close descriptor, no write registration on a pipe read end, no '
+              'read/close callback doing remove-read + remove-write + add-write (proposed finding '
+              'C16-epoll-write-skipped-after-reregister); two bounded exhaustive theorems remain as sanity checks.  Both '
               'models are tied to the C++ by a differential correspondence check (real classes, virtual clock, '
               'interposed Event allocator, real pipes/socketpairs on both back-ends).')
 LEVEL_NOTE = ('Trusted: Coq kernel, extraction (ExtrOcamlBasic), OCaml/C++ glue, generator coverage of the '
